@@ -187,6 +187,22 @@ PROPS["C15"] = dict(
     thorough=dict(shards=16, checks=5000, timeout_s=3600),
 )
 
+PROPS["C01"] = dict(
+    pkg="props/c01", level="exploration", engine="E-model", design_ref="§4 C01",
+    technique="model-based stateful PBT (rapid): multi-session Put/Delete/Get programs with hook-placed rotations, flushes and compaction cycles vs map oracle",
+    rule=("case = 1..4 sessions on one directory, each with its own generated options (memstore limit 1B..1MiB, compaction threshold 0..4 / max size / ratio, write and read buffers 16B..4MiB, "
+          "hook-driven compaction or the real 1 ms ticker) and 0..60 (thorough 150) steps Put/Delete/Get/rotate/wait-for-flusher/compact-once/read-all over a universe of 4..12 adversarial "
+          "non-empty keys (prefix chains, 0x00/0xff/marker bytes, 300-byte keys) through both API flavours; every write has a unique value; oracle = map, compared on the touched key after each step, "
+          "on the whole universe + 2 never-written keys after every compaction, read-all, reopen and before close; any error or process death is a violation; non-trivial = >=1 flushed table and "
+          "(>=1 compaction merging >=2 tables or >=1 reopen) with >=1 live key; distinct = distinct case JSON"),
+    level_text="Reference-map oracle over generated operation programs x hook-placed flush/compaction schedules x per-session option combinations.",
+    level_note="keys and values are non-empty as the property requires; compaction is driven synchronously through the verif-tag hooks (same code path as the ticker) except in sessions that use the real ticker",
+    assumptions=COMMON_ASSUME + ["hooks: simpledb.VerifRotate / VerifWaitFlushIdle / VerifCompactOnce / VerifTables (tag verif)"],
+    require_labels=["merged>=2-tables", "reopen", "session-with-real-ticker", "compaction-of-a-strict-subset"],
+    quick=dict(shards=16, checks=25, shrink_s=5),
+    thorough=dict(shards=16, checks=500, timeout_s=5400),
+)
+
 NOT_APPLICABLE = {}
 
 
